@@ -2,8 +2,10 @@ pub mod c01;
 pub mod c10;
 pub mod c14;
 pub mod c17;
+pub mod c15;
 pub mod c18;
 pub mod c19;
+pub mod supervise;
 pub mod compare;
 pub mod diff;
 pub mod expect;
@@ -110,7 +112,8 @@ pub fn dispatch(prop: &str, tier: &str) -> i32 {
             let chk = Composite { a: Box::new(c17::CsvCheck { property: "C11", mode: c17::CsvMode::Multi }), b: Box::new(c10::PqCheck { property: "C11", mode: c10::PqMode::Pushdown }) };
             crate::finish(&cfg, &chk, serde_json::json!({}))
         }
-        "C19" => c19::run(tier),
+        "C19" => supervise::run(&c19::C19Source, tier),
+        "C15" => supervise::run(&c15::C15Source, tier),
         "C02" | "C03" | "C04" => {
             let mut cfg = crate::base_cfg(prop, tier);
             let (mode, runs, rule) = match prop {
@@ -189,8 +192,8 @@ pub fn replay_file(path: &str) -> i32 {
             return 2;
         }
     };
-    if r.property == "C19" {
-        return c19::replay(path);
+    if r.layer == "L1-child" {
+        return supervise::replay(path, &r.property);
     }
     let v = Violation {
         property: r.property.clone(),
